@@ -184,21 +184,45 @@ def r3_name_bt(ctx):
             # the guard may only skip the last position (exponent 0)
             ok_guard = lits <= literals(Normalizer(None, inline=False, int_atoms=lambda x: True).conj([(ast.parse(f"{i} < M - 1", mode="eval").body, True)]))
             good = good and ok_guard
-        # the exponents counted down next to the values:  for val, e in zip(lst, range(m - 1, 0, -1)): ret *= val ** e
-        if lp is not None and not good and astx.call_name(lp.iter) == "zip" and len(lp.iter.args) == 2 and astx.u(lp.iter.args[0]) == f.params[1] \
-                and isinstance(lp.iter.args[1], ast.Call) and astx.call_name(lp.iter.args[1]) == "range" and len(lp.iter.args[1].args) == 3 \
-                and isinstance(lp.target, ast.Tuple) and len(lp.target.elts) == 2:
-            val, e = [astx.u(x) for x in lp.target.elts]
-            r0, r1, r2 = lp.iter.args[1].args
-            Nz = Normalizer(f.node, inline=True, int_atoms=lambda x: True, rename=lambda x: "M" if astx.u(x) == f"len({f.params[1]})" else None)
-            try:
-                okr = Nz.rat(r0).equals(spec_rat("M - 1")) and astx.is_const(r1, 0) and Nz.rat(r2).equals(spec_rat("-1"))
-            except NotClosedForm:
-                okr = False
-            v = a.value
-            d = astx.u(v)
-            good = okr and isinstance(v, ast.BinOp) and isinstance(v.op, ast.Pow) and astx.u(v.left) == val and astx.u(v.right) == e \
-                and not literals(Normalizer(f.node, inline=False).conj(astx.path_condition(f.node, a, pm)))
+        # a counter running next to the values, in either order and direction:
+        #   for val, e in zip(lst, range(m - 1, 0, -1)): ret *= val ** e      for e, val in zip(range(m - 1, 0, -1), lst): ...
+        # position p pairs lst[p] with start + step * p; the exponent must be m - p - 1 there and the range must reach position m - 2
+        if lp is not None and not good and astx.call_name(lp.iter) == "zip" and len(lp.iter.args) == 2 and isinstance(lp.target, ast.Tuple) and len(lp.target.elts) == 2 \
+                and all(isinstance(x, ast.Name) for x in lp.target.elts):
+            pairs = list(zip(lp.iter.args, [x.id for x in lp.target.elts]))
+            vals = [(x, nm) for x, nm in pairs if astx.u(x) == f.params[1]]
+            rngs = [(x, nm) for x, nm in pairs if isinstance(x, ast.Call) and astx.call_name(x) == "range" and 1 <= len(x.args) <= 3 and not x.keywords]
+            if len(vals) == 1 and len(rngs) == 1:
+                val, (rg, e) = vals[0][1], rngs[0]
+                ra = [astx.u(x) for x in rg.args]
+                start, stop, step = ("0", ra[0], "1") if len(ra) == 1 else (ra[0], ra[1], ra[2] if len(ra) == 3 else "1")
+                Nz = Normalizer(f.node, inline=True, int_atoms=lambda x: True, rename=lambda x: "M" if astx.u(x) == f"len({f.params[1]})" else None)
+                v = a.value
+                d = astx.u(v)
+                try:
+                    st = Nz.rat(ast.parse(step, mode="eval").body)
+                    if st.equals(spec_rat("1")):
+                        count = Nz.rat(ast.parse(f"({stop}) - ({start})", mode="eval").body)
+                    elif st.equals(spec_rat("-1")):
+                        count = Nz.rat(ast.parse(f"({start}) - ({stop})", mode="eval").body)
+                    else:
+                        count = None
+                    reach = count is not None and (count.equals(spec_rat("M - 1")) or count.equals(spec_rat("M")))
+                    if reach and isinstance(v, ast.BinOp) and isinstance(v.op, ast.Pow) and astx.u(v.left) == val:
+                        # exponent at position P, the counter written out
+                        class _S(ast.NodeTransformer):
+                            def visit_Name(self_, n):
+                                if n.id == e:
+                                    return ast.parse(f"(({start}) + ({step}) * P__)", mode="eval").body
+                                return n
+                        import copy as _copy
+                        ex = ast.fix_missing_locations(_S().visit(_copy.deepcopy(v.right)))
+                        rex = Nz.rat(ex)
+                        astx.MISSES[:] = [x for x in astx.MISSES if x[1] != "P__"]   # the position symbol is not a local of the function
+                        good = rex.equals(spec_rat("M - P__ - 1")) \
+                            and not literals(Normalizer(f.node, inline=False).conj(astx.path_condition(f.node, a, pm)))
+                except (NotClosedForm, SyntaxError):
+                    good = False
     init = [dv for st, dv in astx.defs_of(f.node, astx.u(augs[0].target)) if dv is not None] if augs else []
     good = good and len(init) == 1 and astx.is_const(init[0], 1)
     ctx.check(good, f, augs[0] if augs else f.node, "_make_pow = product of val_i ** (m - i - 1), 0-based", d, f"factor is `{d}`; documented val ** (m - i - 1)")
@@ -347,6 +371,8 @@ FAULTS = [
     ("BT intervals in dict order, cohesion in bloc order", [(BG, "                    [self.pref_intervals_by_bloc[bloc][b] for b in self.blocs],", "                    list(self.pref_intervals_by_bloc[bloc].values()),", "all")], "C15.R5"),
     ("slate total counts zero-support candidates", [(BG, "                len(interval.non_zero_cands)\n                for interval in self.pref_intervals_by_bloc[bloc].values()", "                len(interval.candidates)\n                for interval in self.pref_intervals_by_bloc[bloc].values()")], "C15.R4"),
     ("make_pow exponent m-i", [(BG, "                ret *= val ** (m - i - 1)", "                ret *= val ** (m - i)")], "C15.R3"),
+    ("make_pow counter zipped from m", [(BG, "        for i, val in enumerate(lst):\n            if i < m - 1:\n                ret *= val ** (m - i - 1)", "        for e, val in zip(range(m, 0, -1), lst):\n            ret *= val ** e")], "C15.R3"),
+    ("make_pow counter zipped, stops one short", [(BG, "        for i, val in enumerate(lst):\n            if i < m - 1:\n                ret *= val ** (m - i - 1)", "        for e, val in zip(range(m - 1, 1, -1), lst):\n            ret *= val ** e")], "C15.R3"),
     ("make_pow skips first", [(BG, "            if i < m - 1:\n                ret *= val ** (m - i - 1)", "            if 0 < i < m - 1:\n                ret *= val ** (m - i - 1)")], "C15.R3"),
     ("BT pdf supports sorted", [(BG, "            return [dct[i] for i in lst]", "            return sorted([dct[i] for i in lst], reverse=True)")], "C15.R3"),
     ("BT pdf not normalised", [(BG, "        return {key: value / summ for key, value in new_dct.items()}", "        return {key: value for key, value in new_dct.items()}")], "C15.R3"),
@@ -356,5 +382,6 @@ FAULTS = [
     ("slate table over all permutations with repeats", [(BG, "            for b in set(it.permutations(blocs_to_sample, len(blocs_to_sample)))", "            for b in it.permutations(blocs_to_sample, len(blocs_to_sample - 0) if False else len(blocs_to_sample) - 1)")], "C15.R4"),
 ]
 BENIGN = [
+    ("make_pow counter zipped in front", [(BG, "        for i, val in enumerate(lst):\n            if i < m - 1:\n                ret *= val ** (m - i - 1)", "        for e, val in zip(range(m - 1, 0, -1), lst):\n            ret *= val ** e")]),
     ("exponent reordered", [(BG, "                ret *= val ** (m - i - 1)", "                ret *= val ** (m - 1 - i)")]),
 ]
